@@ -146,12 +146,14 @@ def random_case(rng, n, pmax):
     p = int(rng.integers(2, pmax + 1))
     m = int(rng.integers(2, min(n, 5) + 1))
     M = int(rng.integers(m, 9))
-    kind = str(rng.choice(["table", "l2", "l2", "l2cost"]))
+    kind = str(rng.choice(["table", "l2", "l2", "l2cost", "l2cost-mu"]))
     if kind == "table":
         sv = {"kind": "table", "coll": random_table(rng, n, p), "k": int(rng.integers(1, 3)),
               "point": (rng.integers(0, 13, size=(n, p)) * (rng.random((n, p)) < 0.4)).astype(float) if rng.random() < 0.7 else None}
     else:
         sv = {"kind": kind, "X": random_data(rng, n, p)}
+        if kind == "l2cost-mu":     # collective saving with a non-zero baseline mean per column, point saving left at its documented default
+            sv["mu"] = [float(v) for v in rng.choice([-1.0, 0.5, 1.0, 2.0], size=p)]
     pscales = [0.0, 0.1, 0.3, 1.0, 2.0, 50.0, 50.0]
     case = {"api": str(rng.choice(["MVCAPA", "MVCAPA", "run_mvcapa"])), "n": n, "p": p, "m": m, "M": M, "saving": sv,
             "ignore": bool(rng.random() < 0.25),
@@ -189,6 +191,10 @@ def make_savings(case, raw_cost):
     X = np.asarray(sv["X"], dtype=float).reshape(n, p)
     if sv["kind"] == "l2":
         return X, L2Saving(), L2Saving()
+    if sv["kind"] == "l2cost-mu":
+        mu = np.asarray(sv["mu"], dtype=float)
+        # point_saving omitted for the class (None -> L2Saving() by the documentation); the kernel gets that default explicitly
+        return X, (L2Cost(param=mu) if raw_cost else Saving(L2Cost(param=mu))), (None if raw_cost else L2Saving())
     if raw_cost:
         return X, L2Cost(param=0.0), L2Cost(param=0.0)
     return X, Saving(L2Cost(param=0.0)), Saving(L2Cost(param=0.0))
@@ -202,6 +208,9 @@ def saving_functions(case):
         return (lambda s, e: C[s, e]), (lambda t: C[t, t + 1] if P is None else P[t])
     X = np.asarray(sv["X"], dtype=float).reshape(n, p)
     sc = lambda s, e: oracles.saving(oracles.l2_cost, X, s, e, 0.0)     # noqa: E731
+    if sv["kind"] == "l2cost-mu":       # collective: baseline mean mu; point: the documented default L2Saving (baseline 0)
+        mu = np.asarray(sv["mu"], dtype=float)
+        return (lambda s, e: oracles.saving(oracles.l2_cost, X, s, e, mu)), (lambda t: sc(t, t + 1))
     return sc, (lambda t: sc(t, t + 1))
 
 
